@@ -860,6 +860,14 @@ class TrajectoryStore:
         if not self.indexable:
             raise RuntimeError('Cannot lookup by flight_id in non-indexable store')
 
+        # An in-memory store has no NetCDF index group; all of its trajectories
+        # are held in the cache (nothing can be evicted), so search them.
+        if not self.nc_linked:
+            for traj in self._trajectories.values():
+                if traj.flight_id == flight_id:
+                    return traj
+            return None
+
         # Reindex lazily if needed.
         if self.index_stale:
             self._reindex()
@@ -1537,6 +1545,11 @@ class TrajectoryStore:
         # NOTE: Takes about 1.5s on a store with 1 million trajectories.
 
         if not self.indexable or not self.index_stale:
+            return
+
+        # Nothing to index until the store is linked to NetCDF files (an
+        # in-memory store is indexed when it is saved).
+        if not self.nc_linked:
             return
 
         # Get the NetCDF4 groups for the base field set.
